@@ -360,3 +360,45 @@ def rand_session_w1(rng, nops=30):
             ops.append("w:" + ",".join(ws))
         else: ops.append("p:%d" % rng.randrange(4))
     return "%d %d %d raw %s" % (cap, hcap, rng.randrange(4), ";".join(ops))
+
+
+# ---- sizes beyond 255 (a length, cursor or offset kept in a narrower integer than usize shows only there)
+def long_text(rng, n, alphabet=(b"a", b"b", b"c", b"x", "\u00e9".encode(), "\u20ac".encode())):
+    return b"".join(rng.choice(alphabet) for _ in range(n))
+
+def long_ed_cases(rng, n):
+    out = []
+    for _ in range(n):
+        cap = rng.choice([300, 520, 700])
+        ops = ["i:" + hx(long_text(rng, rng.choice([40, 64, 90]))) for _ in range(rng.choice([3, 4, 6]))]
+        ops += ["ml"] * rng.choice([1, 200, 257, 270]) + ["i:78", "rm"] + ["mr"] * rng.choice([0, 3, 260]) + ["i:" + hx(long_text(rng, 30)), "rm", "ml", "ml", "rm"]
+        out.append("%d %s" % (cap, ";".join(ops)))
+    return out
+
+def long_hist_cases(rng, n):
+    out = []
+    for _ in range(n):
+        hcap = rng.choice([600, 1100])
+        lines = [long_text(rng, rng.choice([100, 250, 256, 257, 300])) for _ in range(rng.choice([2, 3, 5]))]
+        ops = []
+        for l in lines + [lines[0]]:
+            ops.append("p:" + hx(l))
+            ops += ["o"] * rng.choice([0, 1, 3]) + ["n"] * rng.choice([0, 1])
+        ops += ["o"] * 6 + ["n"] * 7
+        out.append("%d %s" % (hcap, ";".join(ops)))
+    return out
+
+def long_sessions(rng, n, cmdword=b"echo ", api=True):
+    """a line longer than 255 bytes / characters typed, the cursor moved back over position 256, an insertion and a deletion there,
+    application output while it is edited, submission, recall"""
+    out = []
+    for _ in range(n):
+        cap, hcap = rng.choice([400, 700]), rng.choice([0, 350, 900])
+        body = long_text(rng, rng.choice([256, 262, 300]), alphabet=(b"a", b"b", b"c", b" ", "\u00e9".encode(), "\u03bb".encode()))
+        ops = ["b:" + hx(cmdword + body), "b:" + hx(KEYS["left"] * rng.choice([5, 258, 270])), "b:58", "b:08", "w:s6869,s0a",
+               "b:" + hx(KEYS["right"] * rng.choice([0, 2, 259])), "b:0d", "b:" + hx(KEYS["up"]), "b:" + hx(KEYS["left"] * 3), "b:59", "b:0d",
+               "b:" + hx(KEYS["up"]), "b:" + hx(KEYS["up"]), "b:" + hx(KEYS["down"]), "b:0d"]
+        if not api:
+            ops = [o for o in ops if not o.startswith("w:")]
+        out.append("%d %d %d raw %s" % (cap, hcap, rng.randrange(4), ";".join(ops)))
+    return out
